@@ -186,9 +186,11 @@ def r15e(ctx: Context) -> None:
         rule.fail(func_key(main_fn) + ": catch-all", where(main_fn), "main has no 'except Exception' handler around the run")
     # the driver call is inside main's try body
     chain = None
+    driver = prog.method(MAIN, "__scan_files_if_no_errors")
     for site in prog.sites_in(main_fn):
-        if any(t.name == "__scan_files_if_no_errors" for t in site.targets):
-            chain = site
+        # the driver itself, or the method of the application object that main hands the run to
+        if any(t == driver or (t.cls == main_fn.cls and driver.qualname in prog.reachable([t])) for t in site.targets):
+            chain = chain or site
     if chain is None:
         raise AnalysisError("main no longer calls the run driver")
     if catching_handler(main_fn.node, chain.node, is_catch_all) is None:
